@@ -113,9 +113,13 @@ def oracle(case, res):
         if len(set(got)) != len(got): return 'label repeated on %s: %r' % (d, got)
         if set(got) != set(want): return 'axis %s is %r, expected the %s %r' % (d, got, 'union' if join == 'outer' else 'intersection', want)
         if sort and got != sorted(got): return 'sort=True but axis %s is %r' % (d, got)
-        if not sort and join == 'outer' and len(have) > 1 and all(len(s) >= 2 for s in sets):
-            if all(s == sorted(s) for s in sets) and got != sorted(got): return 'all inputs increasing on %s but result %r' % (d, got)
-            if all(s == sorted(s, reverse=True) for s in sets) and got != sorted(got, reverse=True): return 'all inputs decreasing on %s but result %r' % (d, got)
+        # (an axis of one label is sorted in both directions; an empty one gives way)
+        if not sort and join == 'outer' and len(have) > 1 and all(len(s) >= 1 for s in sets):
+            inc = all(s == sorted(s) for s in sets); dec = all(s == sorted(s, reverse=True) for s in sets)
+            if inc and dec:       # one label each: no direction, any sorted order will do
+                if got != sorted(got) and got != sorted(got, reverse=True): return 'single-label inputs on %s but result %r is not sorted' % (d, got)
+            elif inc and got != sorted(got): return 'all inputs increasing on %s but result %r' % (d, got)
+            elif dec and got != sorted(got, reverse=True): return 'all inputs decreasing on %s but result %r' % (d, got)
     # data: each array keeps its values at its labels, NaN elsewhere; untouched dims keep their axes
     for i, a in enumerate(ins):
         o = outs[i]; obs = arr_json(mk_array(a))
